@@ -24,7 +24,7 @@ go build ./... >> $log 2>&1; build_rc=$?
 go vet $pkgs >> $log 2>&1; vet_rc=$?
 timeout 2400 go test -count=1 $pkgs 2>&1 | grep -v "^ok\|no test files" >> $log; 
 timeout 2400 go test -count=1 $pkgs > /tmp/confirm_$id.txt 2>&1
-fails=$(grep -E "^--- FAIL" /tmp/confirm_$id.txt | grep -v -E "TestPortalWireProtocol$|TestTraceContentLookup$" | wc -l)
+fails=$(grep -E "^--- FAIL" /tmp/confirm_$id.txt | grep -v -E "TestPortalWireProtocol |TestTraceContentLookup " | wc -l)
 grep -E "^--- FAIL|^FAIL|^ok" /tmp/confirm_$id.txt >> $log
 git apply -R seed/patch.diff; git checkout -q -- .
 cp seed/patch.diff $out/patch.diff; cp seed/*_test.go seed/HOWTO.txt $out/ 2>/dev/null; cp seed/meta.json $out/meta.agent.json
